@@ -11,6 +11,8 @@ From AV Require Import Model.D05.
 From AV Require Import Model.D17.
 From AV Require Import Base.ITree Model.D00 Model.D01 Model.D04 Model.D06 Model.D07 Model.D12.
 From AV Require Import Base.ITree Model.D00 Model.D01 Model.D04 Model.D06 Model.D07 Model.D14.
+From AV Require Import Model.D18.
+From AV Require Import Model.D16.
 Import ListNotations.
 
 Definition dispatch (prop op : nat) (t : itree) : itree :=
@@ -29,5 +31,7 @@ Definition dispatch (prop op : nat) (t : itree) : itree :=
   | 17 => d17 op t
   | 12 => d12 op t
   | 14 => d14 op t
+  | 18 => d18 op t
+  | 16 => d16 op t
   | _ => bad_input
   end.
